@@ -14,14 +14,44 @@ package ignorefiles
 
 //@ func (*rule).compile -> (err)
 //@   sweep
+//@   replay ignoreRule: rule=r.val
+//@   modifies r
 //@   requires pre.r: r != nil
+//@   ghost $src String = ""
+//@   ghost $pos Int = 0
+//@   invariant loop1 C03.compile.table: $src == r.val && 0 <= $pos && $pos <= len($src) && regStr == "^" + trPrefix($src, $pos) && r.val == old(r.val)
+//@   at-call regexp.Compile C03.compile.whole: a0 == trSpec(old(r.val))
+//@   assume-at-call regexp.Compile def.tr: tr(r.val) == trSpec(r.val)
+//@   ensures C03.compile.ok: (err == nil) == reCompiles(tr(old(r.val)))
+//@   ensures C03.compile.frame: r.val == old(r.val) && r.negated == old(r.negated) && r.negationsAfter == old(r.negationsAfter) && (err != nil ==> r.regex == old(r.regex))
+//@   ensures C03.compile.nonnil: err == nil ==> r.regex != nil
+//@   ensures C03.compile.sets: err == nil ==> reSem(r.regex) == tr(old(r.val))
 
 //@ func (*rule).match -> (ok, err)
 //@   sweep
+//@   modifies r
 //@   requires pre.r: r != nil
+//@   ensures C03.match.spec: ok == ruleMatchF(old(r.val), old(r.regex), path)
+//@   ensures C03.match.err: err != nil ==> !ok
+//@   ensures C03.match.frame: r.val == old(r.val) && r.negated == old(r.negated) && r.negationsAfter == old(r.negationsAfter)
+//@   sets $last = ite(ok, $iter, $last)
+//@   sets $iter = $iter + 1
 
+//@ macro ruleM(R, I, P): ruleMatchF(R.rules[I].val, R.rules[I].regex, P)
 //@ func (*Ruleset).Excludes -> (res, err)
 //@   sweep
+//@   ghost $iter Int = 0
+//@   ghost $last Int = -1
+//@   invariant loop1 C03.excludes.inv: $iter == rangeindex + 1 && $iter <= len(r.rules) && $last < $iter && $last >= -1
+//@       && ($last >= 0 ==> ruleM(r, $last, path))
+//@       && ($last < anyIndex && anyIndex < $iter ==> !ruleM(r, anyIndex, path))
+//@       && foundMatch == ($last >= 0 && !r.rules[$last].negated)
+//@       && dominating == (foundMatch && !r.rules[$last].negationsAfter)
+//@   ensures C03.excludes.nil: r == nil ==> !res.Excluded && !res.Dominating
+//@   ensures C03.excludes.last: r != nil ==> $last >= -1 && $last < len(r.rules) && ($last >= 0 ==> ruleM(r, $last, path))
+//@   ensures C03.excludes.nolater: r != nil && $last < anyIndex && anyIndex < len(r.rules) ==> !ruleM(r, anyIndex, path)
+//@   ensures C03.excludes.lastwins: r != nil ==> res.Excluded == ($last >= 0 && !r.rules[$last].negated)
+//@   ensures C03.excludes.dominating: r != nil ==> res.Dominating == (res.Excluded && !r.rules[$last].negationsAfter)
 
 //@ func ParseIgnoreFileContent -> (rs, err)
 //@   sweep
